@@ -7,8 +7,8 @@
 (* with results, calls to a convention-respecting callee, merges.            *)
 EXTENDS Integers, Sequences, TLC, Json
 CONSTANTS MinN, MaxN
-VARIABLES phase, n, ins, kpos, callee
-vars == <<phase, n, ins, kpos, callee>>
+VARIABLES phase, n, ins, kpos, callee, wrapped
+vars == <<phase, n, ins, kpos, callee, wrapped>>
 
 Alpha == <<
   "addi sp, sp, -16", "addi sp, sp, 16", "addi sp, sp, -8", "addi sp, sp, 8",
@@ -38,21 +38,27 @@ Render(is, i, k) ==
   (IF k = i THEN "K:\n" ELSE "")
   \o (IF i > Len(is) THEN "" ELSE "    " \o Alpha[is[i]] \o "\n" \o Render(is, i + 1, k))
 
-Text(is, k, c) ==
-  ".data\nD1: .word 7\n.text\nmain:\n" \o Render(is, 1, k) \o "    li a7, 10\n    ecall\n" \o Callees[c]
+\* wrapped: the sequence is the body of a function G called from main (saved registers then have a
+\* known entry value and the claims about them are judged)
+Text(is, k, c, w) ==
+  IF w
+    THEN ".data\nD1: .word 7\n.text\nmain:\n    li a0, 0\n    li t0, 3\n    call G\n    li a7, 10\n    ecall\nG:\n"
+         \o Render(is, 1, k) \o "    ret\n" \o Callees[c]
+    ELSE ".data\nD1: .word 7\n.text\nmain:\n" \o Render(is, 1, k) \o "    li a7, 10\n    ecall\n" \o Callees[c]
 
-Init == phase = "start" /\ n = 0 /\ ins = <<>> /\ kpos = 0 /\ callee = 1
-PickN == phase = "start" /\ \E k \in MinN..MaxN, c \in 1..Len(Callees) : n' = k /\ callee' = c /\ phase' = "ins" /\ UNCHANGED <<ins, kpos>>
+Init == phase = "start" /\ n = 0 /\ ins = <<>> /\ kpos = 0 /\ callee = 1 /\ wrapped = FALSE
+PickN == phase = "start" /\ \E k \in MinN..MaxN, c \in 1..Len(Callees), w \in BOOLEAN :
+           n' = k /\ callee' = c /\ wrapped' = w /\ phase' = "ins" /\ UNCHANGED <<ins, kpos>>
 PickI == /\ phase = "ins" /\ Len(ins) < n
          /\ \E a \in 1..NA : ins' = Append(ins, a)
-         /\ UNCHANGED <<phase, n, kpos, callee>>
+         /\ UNCHANGED <<phase, n, kpos, callee, wrapped>>
 EndI  == /\ phase = "ins" /\ Len(ins) = n
          /\ \E k \in 2..(n + 1) : kpos' = k      \* K is always defined, after the first instruction
-         /\ phase' = "emit" /\ UNCHANGED <<n, ins, callee>>
+         /\ phase' = "emit" /\ UNCHANGED <<n, ins, callee, wrapped>>
 Emit  == /\ phase = "emit"
-         /\ PrintT("CASE " \o ToJson([text |-> Text(ins, kpos, callee), n |-> n, kpos |-> kpos, callee |-> callee,
+         /\ PrintT("CASE " \o ToJson([text |-> Text(ins, kpos, callee, wrapped), n |-> n, kpos |-> kpos, callee |-> callee, wrapped |-> wrapped,
                                       syms |-> [i \in 1..Len(ins) |-> Alpha[ins[i]]]]))
-         /\ phase' = "done" /\ UNCHANGED <<n, ins, kpos, callee>>
+         /\ phase' = "done" /\ UNCHANGED <<n, ins, kpos, callee, wrapped>>
 Next == PickN \/ PickI \/ EndI \/ Emit
 Spec == Init /\ [][Next]_vars
 =============================================================================
